@@ -74,7 +74,14 @@ def run(rep):
     # the flag: a scalar that the body sets to the constant 1 (and the prologue to 0)
     flags = {text(n["inner"][0]) for n in find_all(wl, lambda n: n.get("kind") == "BinaryOperator" and n.get("opcode") == "=" and strip(n["inner"][0]).get("kind") == "DeclRefExpr"
                                                 and cq.same_expr(n["inner"][1], "1"))}
-    flags = {f_ for f_ in flags if f_ in penv and cq.same_expr(penv[f_], "0")}
+    flags0 = {f_ for f_ in flags if f_ in penv and cq.same_expr(penv[f_], "0")}
+    if len(flags0) == 1:
+        flags = flags0
+    else:
+        # a flag whose prologue value is conditional (`miss = first point invalid ? 1 : 0`, an if / else) is still the flag
+        pro_assigned = {text(n["inner"][0]) for s_ in ostm[:ostm.index(wl)] for n in find_all(s_, lambda n: n.get("kind") == "BinaryOperator" and n.get("opcode") == "=" and
+                                                                                             strip(n["inner"][0]).get("kind") == "DeclRefExpr")}
+        flags = {f_ for f_ in flags if f_ in pro_assigned}
     if len(flags) != 1:
         raise AnalysisError(f"{file}: invalid-interval flag not recognised ({sorted(flags)})")
     MISS = flags.pop()
@@ -144,6 +151,9 @@ def run(rep):
             if c[0] in ('and', 'or', 'not'):
                 from .c03 import _bool
                 return _bool(c, oracle)
+            if c[0] == 'cmp' and _const(c[2]) and _const(c[3]):
+                a_, b_ = Canon().ratio(c[2]).cval(), Canon().ratio(c[3]).cval()
+                return {'<': a_ < b_, '<=': a_ <= b_, '>': a_ > b_, '>=': a_ >= b_, '==': a_ == b_, '!=': a_ != b_}.get(c[1])
             if c[0] == 'call' and c[1] == 'isnan':
                 if cq.same_expr(c[2][0], V1):
                     return P["NAN1"]
@@ -266,17 +276,18 @@ def run(rep):
     cnt = 0
     for R in (True, False):
         bad = []
+        und_c = []
         for A, B in itertools.product([True, False], repeat=2):
             ce = CEval(mk_oracle(P0, A=A, B=B, R=R))
             ce.summarise_loops = True
             try:
                 ce.run(wstm, {HV: ('sym', 'H0')})
             except Undecided as ex:
-                bad.append(str(ex))
+                und_c.append(str(ex))
                 continue
             ends = [f_ for f_ in ce.finals if f_[2] == "end"]
             if not ends or any(f_[1] for f_ in ends):
-                bad.append("undecided test " + (show(ends[0][1][0][0])[:80] if ends and ends[0][1] else "no path"))
+                und_c.append("undecided test " + (show(ends[0][1][0][0])[:80] if ends and ends[0][1] else "no path"))
                 continue
             cnt += 1
             IT1 = START if A else T1
@@ -291,7 +302,10 @@ def run(rep):
                 bad.append(f"left end {'clipped' if A else 'inside'}, right end {'clipped' if B else 'inside'}: integral becomes {show(got)[:140] if got else None}")
         lab = "rainfall: increment prorated by the clipped share of its interval (x period length, divided out at the end)" if R else \
             "interpolation: exact trapezoid of the linear interpolant between the clipped ends"
-        rep.check(not bad, "R14.b", file, "c_var2h", lab + "; ends clipped to max(t1, start), min(t2, end)", " | ".join(bad[:2]), line=wl.get("_line"))
+        if und_c and not bad:
+            rep.undecided("R14.b", file, "c_var2h", lab + "; ends clipped to max(t1, start), min(t2, end)", " | ".join(und_c[:2]), line=wl.get("_line"))
+        else:
+            rep.check(not bad, "R14.b", file, "c_var2h", lab + "; ends clipped to max(t1, start), min(t2, end)", " | ".join(bad[:2]), line=wl.get("_line"))
     rep.floor("contribution cases", cnt, 8)
     # ---- advance
     ce = CEval(mk_oracle(P0, A=False, B=False, R=True))
